@@ -45,6 +45,10 @@ def corrupt_fasta(recs, kind, pos):
     elif kind == "badsym":
         s = recs[i][1]
         recs[i][1] = s[:len(s) // 2] + "J" + s[len(s) // 2 + 1:]
+    elif kind == "badsym0":           # ... as the FIRST symbol of the sequence
+        recs[i][1] = "J" + recs[i][1][1:]
+    elif kind == "badsymZ":           # ... as the LAST
+        recs[i][1] = recs[i][1][:-1] + "J"
     return fasta([tuple(r) for r in recs])
 
 
@@ -120,7 +124,7 @@ def check(ctx):
             return [new if a == old else a for a in argv]
         # corrupted alignment files
         n = 0
-        for kind in ("unequal", "shorter", "badsym", "emptyseq"):
+        for kind in ("unequal", "shorter", "badsym", "badsym0", "badsymZ", "emptyseq"):
             for pos in (0, 1, 2):
                 b = corrupt_fasta(aln, kind, pos)
                 if b is None:
